@@ -611,6 +611,18 @@ class Cap(object):
             for s, loc in self.lval(n["ch"][0], st):
                 cur = self.load(s, loc)
                 d = 1 if op == "++" else -1
+                if cur[0] == "i" and d == -1 and not n["ch"][0].get("ts") and not n["ch"][0].get("tp") and (n["ch"][0].get("tw") or 0) >= 32 and \
+                        feasible(s.cons + [-cur[1]]) and not entails(s.cons, cur[1] - 1):
+                    # decrement of an unsigned quantity that may be 0: the zero case wraps to the type's maximum
+                    s_wrap = s.copy()
+                    s_wrap.cons += [-cur[1]]
+                    s_wrap.path.append("%s wraps below 0" % X.render(n["ch"][0])[:20])
+                    big = fresh("wrap")
+                    s_wrap.cons.append(Lin.sym(big) - (1 << 31))
+                    s_wrap.imprecise.add(big)
+                    self.store(s_wrap, loc, I(Lin.sym(big)), n)
+                    res.append((s_wrap, cur if n.get("post") else I(Lin.sym(big))))
+                    s.cons.append(cur[1] - 1)
                 if cur[0] == "i":
                     new = I(cur[1] + d)
                 elif cur[0] == "p":
